@@ -1,14 +1,14 @@
 ----------------------------- MODULE AluTheorems -----------------------------
-(* Property layer for C03/C04: the limb operators of TeakAlu are EXACT integer arithmetic.  With a   *)
+(* Property layer for C03/C04: the limb operators of TeakAlu are EXACT integer arithmetic.  With vA   *)
 (* scaled limb width (W = 4: 10-bit accumulator, 8-bit "32-bit" range, 4-bit factors) TLC compares    *)
-(* every operator with plain integer arithmetic for ALL operand values (a is enumerated as the set of *)
+(* every operator with plain integer arithmetic for ALL operand values (vA is enumerated as the set of *)
 (* initial states, b / modes are quantified inside the invariants).                                    *)
 EXTENDS TeakAlu, TLC
 
-CONSTANT Dev_ShiftBy40    \* TRUE: accept the as-coded carry for a shift by exactly ABITS (named deviation)
-VARIABLE a
-Init == a = AZero
-Next == a' \in AccSet          \* successors are checked by all workers in parallel
+CONSTANT Dev_ShiftBy40    \* TRUE: accept the as-coded carry for vA shift by exactly ABITS (named deviation)
+VARIABLE vA
+Init == vA = AZero
+Next == vA' \in AccSet          \* successors are checked by all workers in parallel
 
 M    == 2 ^ ABITS
 Half == M \div 2
@@ -18,24 +18,24 @@ S32 == 2 * W                                                     \* the "32-bit"
 
 AddSubExact ==
     \A b \in AccSet : \A sub \in BOOLEAN :
-        LET r  == AddSub(a, b, sub)
-            ia == AToInt(a)  ib == AToInt(b)
+        LET r  == AddSub(vA, b, sub)
+            ia == AToInt(vA)  ib == AToInt(b)
             t  == IF sub THEN ia - ib ELSE ia + ib
-            u  == IF sub THEN AToNat(a) - AToNat(b) ELSE AToNat(a) + AToNat(b)
+            u  == IF sub THEN AToNat(vA) - AToNat(b) ELSE AToNat(vA) + AToNat(b)
         IN  /\ AToInt(r.v) = Wrap(t)
             /\ r.c = (IF sub THEN B2I(u < 0) ELSE B2I(u >= M))       \* carry = bit 40 of the unsigned result
             /\ r.ov = B2I(~ Fits(t, ABITS))                           \* overflow = signed result not representable
 
 FlagsExact ==
-    LET x == AToInt(a)  fl == AccFlags(a) IN
+    LET x == AToInt(vA)  fl == AccFlags(vA) IN
     /\ fl.fz = B2I(x = 0)
     /\ fl.fm = B2I(x < 0)
     /\ fl.fe = B2I(~ Fits(x, S32))
-    \* normalised: zero, or a 32-bit value whose magnitude needs all 32 bits
+    \* normalised: zero, or vA 32-bit value whose magnitude needs all 32 bits
     /\ fl.fn = B2I(x = 0 \/ (Fits(x, S32) /\ ~ Fits(x, S32 - 1)))
 
 SaturateExact ==
-    LET x == AToInt(a)  r == Saturate(a)
+    LET x == AToInt(vA)  r == Saturate(vA)
         lo == -(2 ^ (S32 - 1))  hi == 2 ^ (S32 - 1) - 1 IN
     /\ AToInt(r.v) = (IF x < lo THEN lo ELSE IF x > hi THEN hi ELSE x)
     /\ r.lim = B2I(x < lo \/ x > hi)
@@ -45,11 +45,11 @@ FloorShr(x, n) == IF x >= 0 THEN x \div (2 ^ n) ELSE -((-x + 2 ^ n - 1) \div (2 
 
 ShiftExact ==
     \A n \in 0 .. ABITS + 2 : \A smode \in 0 .. 1 : \A sata \in 0 .. 1 : \A fv0 \in 0 .. 1 :
-        LET x  == AToInt(a)
-            ux == AToNat(a)
+        LET x  == AToInt(vA)
+            ux == AToNat(vA)
             lo == -(2 ^ (S32 - 1))  hi == 2 ^ (S32 - 1) - 1
-            L  == ShiftN(a, TRUE, n, smode, sata, fv0)
-            R  == ShiftN(a, FALSE, n, smode, sata, fv0)
+            L  == ShiftN(vA, TRUE, n, smode, sata, fv0)
+            R  == ShiftN(vA, FALSE, n, smode, sata, fv0)
             lx == x * (2 ^ n)                           \* exact (unbounded) left shift; n <= 12, |x| < 2^10
             lov == ~ Fits(lx, ABITS)
             lraw == Wrap(lx)
@@ -74,10 +74,10 @@ ShiftExact ==
                          /\ R.flm = B2I(rclamp)
 
 ExpExact ==
-    LET x == AToInt(a)
+    LET x == AToInt(vA)
         \* number of redundant sign bits: the largest k with x representable in ABITS - k bits
         k == CHOOSE k \in 0 .. ABITS - 1 : Fits(x, ABITS - k) /\ (k = ABITS - 1 \/ ~ Fits(x, ABITS - k - 1))
-    IN  Exp(a) = (k + B - E) % B
+    IN  Exp(vA) = (k + B - E) % B
 
 Inv == AddSubExact /\ FlagsExact /\ SaturateExact /\ ShiftExact /\ ExpExact
 =============================================================================
